@@ -66,7 +66,7 @@ class _Cycle:
 
 
 class QRun:
-    MAX_ROWS = 5000
+    MAX_ROWS = 50000
 
     def __init__(self, sim: Sim, plan: dict, stream_faults=None):
         self.sim = sim
@@ -74,6 +74,7 @@ class QRun:
         reset()
         self.world = W.World(plan["world"])
         self.pool = Pool(self.world, plan["pool"], stream_faults=stream_faults)
+        self.extensions: List[tuple] = []      # (qid, predicate name, literal) added to queries after building
         self.slots: Dict[str, Slot] = {}
         self.parked: List[Any] = []
         self.held: List[Any] = []
@@ -260,9 +261,36 @@ class QRun:
             if c is not None:
                 c.clear()
 
+    @staticmethod
+    def apply_extension(pool: Pool, qid: str, pred: str, k):
+        """Extend an existing query the documented way: a class predicate written inside `with symbolic_mode(q):`
+        becomes an additional condition of q, implicitly bound to q's selected variable."""
+        from entity_query_language import symbolic_mode
+        q = pool.queries[qid]
+        with symbolic_mode():
+          with q:                    # as in the repository's own test: with symbolic_mode(): with query: Pred(..)
+            if pred == "IsBig":
+                W.IsBig()
+            elif pred == "Linked":
+                W.Linked(pool.vars[k])          # Linked(<selected variable>, <another variable of the pool>)
+            else:
+                W.IsBig(W.V(k))
+
+    def extend(self, qid: str, pred: str, k):
+        self.apply_extension(self.pool, qid, pred, k)
+        self.extensions.append((qid, pred, k))
+        self.sim.event("extend", qid, pred, k)
+
     def twin(self, only: Optional[List[str]] = None) -> Optional[Pool]:
-        """The same pool spec built from scratch, fresh variables, plain list copies of the same data."""
+        """The same pool spec built from scratch, fresh variables, plain list copies of the same data (and the same
+        extensions applied, in order, before anything is evaluated)."""
         try:
-            return Pool(self.world, self.plan["pool"], domain_kinds=TWIN_KINDS, only=only)
+            tw = Pool(self.world, self.plan["pool"], domain_kinds=TWIN_KINDS, only=only)
+            for qid, pred, k in self.extensions:
+                if qid in tw.queries:
+                    self.apply_extension(tw, qid, pred, k)
+            return tw
         except BuildError:
+            return None
+        except Exception:
             return None
